@@ -919,7 +919,9 @@ impl Calendar {
                 if self.year_kind(year).is_leap() {
                     29
                 } else if let Some(gap) = self.gap() {
-                    if matches!(gap.cmp_year_month(year, February), EqLower) {
+                    if matches!(gap.cmp_year_month(year, February), EqLower)
+                        && inner::is_julian_leap_year(year)
+                    {
                         29
                     } else {
                         28
